@@ -1,3 +1,5 @@
+//verif:race
+
 // C11 — mirrored storage: writes reach both replicas, reads repair, errors are
 // not masked.
 //
@@ -24,7 +26,17 @@
 //	conc  - concurrent clients under the race detector; schedule-independent
 //	        clauses only.
 //
-//verif:race
+// Three genuine defects were found with it on the snapshot (each has its own
+// signature; see the comments at the places that report them):
+//
+//   - sigP1 (scenario.go): the stream clone of a refresh-in-progress buffer has
+//     no digest; the repair Put of the local replicator panics in GetSizeBytes.
+//   - "localStore(localInMemory).Put:acknowledged-upload-reads-back-wrong"
+//     (replica.go): inMemoryBlock.Put loses reader-backed uploads placed in the
+//     last 511 bytes of a block (bytes.Buffer.ReadFrom reallocates).
+//   - "mirroredBlobAccess.Get(ToReader):failure-returned-by-Close-without-backend-name"
+//     (scenario.go): a failed background replication reaches the caller through
+//     Close() of the io.ReadCloser, past the composite's error handler.
 package main
 
 import (
@@ -165,7 +177,7 @@ func randomRepl(r *gen.Rng, sc *scenario) {
 // ---- seq -------------------------------------------------------------------
 
 func seqEngine(w *run.Worker) {
-	w.Cases("seq", w.N(4000, 150000), func(c *run.Case) {
+	w.Cases("seq", w.N(4000, 100000), func(c *run.Case) {
 		r := c.Rng
 		sc := &scenario{kinds: [2]string{"model", "model"}}
 		randomRepl(r, sc)
@@ -190,7 +202,7 @@ func seqEngine(w *run.Worker) {
 // ---- local -----------------------------------------------------------------
 
 func localEngine(w *run.Worker) {
-	w.Cases("local", w.N(1600, 45000), func(c *run.Case) {
+	w.Cases("local", w.N(1600, 30000), func(c *run.Case) {
 		r := c.Rng
 		sc := &scenario{hashInit: r.Uint64()}
 		for {
@@ -226,11 +238,10 @@ func localEngine(w *run.Worker) {
 			w.Sample(map[string]any{"engine": "local", "scenario": sc.String()})
 		}
 		if wd, ok := build(c, w, sc); ok {
-			for i, o := range sc.objs {
+			for _, o := range sc.objs {
 				for rr := 0; rr < 2; rr++ {
 					if wd.reps[rr].ls != nil && wd.reps[rr].age(o.d) == 2 {
 						w.Count("local_objects_parked_old", 1)
-						_ = i
 					}
 				}
 			}
@@ -355,7 +366,7 @@ type concRec struct {
 }
 
 func concEngine(w *run.Worker) {
-	w.Cases("conc", w.N(320, 9000), func(c *run.Case) {
+	w.Cases("conc", w.N(320, 6000), func(c *run.Case) {
 		r := c.Rng
 		sc := &scenario{kinds: [2]string{"model", "model"}, hashInit: r.Uint64(), faults: map[faultKey]fault{}}
 		if r.Chance(1, 3) {
